@@ -13,7 +13,7 @@ from ..sym import R, real, symint
 from . import kernel
 from . import mineral_h as mh
 from .C11 import _mode_rotate, _voigt_index
-from .common import all_eq, eq, np_installed, pydrex_modules, sample
+from .common import all_eq, eq, np_installed, pydrex_modules, sample, only_path
 
 TIMEOUT_MS = {"quick": 90000, "thorough": 300000}
 
@@ -148,7 +148,7 @@ def t_average(sess, config, custom, n_grains, n_steps):
     tag = f"average[{config}{', custom C' if custom else ''}, {n_grains} grain(s), {n_steps} step(s)]"
     if len(paths) != 1 or paths[0].exc is not None:
         raise sym.HarnessError(f"{tag}: unexpected paths {paths}")
-    p = paths[0]
+    p = only_path(sess, paths)
     out, order, data, phis, stiff, quats = p.value
     rules = poly.Rules()
     for q in quats:
@@ -261,7 +261,7 @@ def t_aligned_grain(sess):
 
         with np_installed(minerals, tensors):
             paths, _ = sym.explore(fn, catch=(Exception,))
-        p = paths[0]
+        p = only_path(sess, paths)
         if p.exc is not None:
             raise sym.HarnessError(f"aligned grain: {p.exc}")
         st, out = p.value
@@ -294,7 +294,7 @@ def t_corotation(sess):
 
         with np_installed(minerals, tensors):
             paths, _ = sym.explore(fn, catch=(Exception,))
-        p = paths[0]
+        p = only_path(sess, paths)
         if p.exc is not None:
             raise sym.HarnessError(f"corotation: {p.exc}")
         c, s, Q, base, rot = p.value
